@@ -7,7 +7,7 @@ unit that declares it.  It is discharged only if some other registered unit veri
 against a contract that implies the stub's.  This module decides that implication syntactically, which is sound:
 
   stub S of `T::f` in unit A is LINKED to the verified `T::f` of unit B  iff
-    (1) the two signatures name their parameters alike (so clause texts speak about the same things),
+    (1) the two signatures have the same parameters up to a renaming of the bound names (applied before comparing),
     (2) every `requires` clause of B's contract occurs among S's `requires` clauses (A's callers establish at least
         what the real function needs),
     (3) every `ensures` clause of S occurs among B's `ensures` clauses (A's callers learn at most what was proved),
@@ -324,17 +324,66 @@ def link(units):
     return report, errors
 
 
+_TYPE_INVARIANTS = [
+    # (clause pattern, type the function must belong to or None, scans that must be clean)
+    (re.compile(r'^sds_wf\(\*?(old\()?\w+\)?\)$'), None, ('sds_type_invariant', 'sds_encapsulation')),
+    (re.compile(r'^(old\()?self\)?\.inv\(\)$'), 'RedisSortedSet', ('zset_type_invariant',)),
+]
+_SCAN_CACHE = {}
+
+
+def _type_invariant_of(clause, self_ty):
+    for pat, ty, scans in _TYPE_INVARIANTS:
+        if pat.match(clause) and (ty is None or self_ty == ty):
+            return scans
+    return None
+
+
+def _scan_clean(scans):
+    from . import scans as SC
+    ok = True
+    for n in scans:
+        if n not in _SCAN_CACHE:
+            try:
+                res = SC.run_scan(REPO, n)
+                _SCAN_CACHE[n] = (not res['sites']) and res.get('files_scanned', 0) > 0
+            except Exception:
+                _SCAN_CACHE[n] = False
+        ok = ok and _SCAN_CACHE[n]
+    return ok
+
+
 def _compare(stub, proved, sdefs, pdefs, stub_axioms=frozenset()):
     r = {'linked_ensures': [], 'unlinked_ensures': [], 'missing_requires': [], 'def_mismatch': [], 'param_mismatch': False}
     if stub['params'] != proved['params']:
-        r['param_mismatch'] = True
+        # parameter names are bound names: a stub that calls its parameters differently is compared after renaming them, position
+        # by position, to the names of the verified signature (only when that cannot capture another identifier of the clauses)
+        sp, pp = stub['params'], proved['params']
+        words = set(_IDENT.findall(' '.join(stub['requires'] + stub['ensures'])))
+        if len(sp) == len(pp) and len(set(sp)) == len(sp) and not any(b in words and b not in sp for b in pp):
+            tmp = {a: '\x00%d\x00' % i for i, a in enumerate(sp)}
+            def ren(c):
+                c = re.sub(r'\b(%s)\b' % '|'.join(re.escape(a) for a in sp), lambda m: tmp[m.group(1)], c) if sp else c
+                for i, b in enumerate(pp):
+                    c = c.replace('\x00%d\x00' % i, b)
+                return c
+            stub = dict(stub, requires=[ren(c) for c in stub['requires']], ensures=[ren(c) for c in stub['ensures']])
+        else:
+            r['param_mismatch'] = True
     pens = set(proved['ensures'])
     for c in stub['ensures']:
         (r['linked_ensures'] if c in pens else r['unlinked_ensures']).append(c)
     sreq = set(stub['requires'])
+    r['requires_by_type_invariant'] = []
     for c in proved['requires']:
         if c not in sreq:
-            r['missing_requires'].append(c)
+            scan = _type_invariant_of(c, stub.get('self_ty', ''))
+            if scan is not None and _scan_clean(scan):
+                # a representation invariant that a clean type-invariant scan (engine/scans.py) shows to hold for EVERY value of
+                # the type: the stub need not demand it
+                r['requires_by_type_invariant'].append(c)
+            else:
+                r['missing_requires'].append(c)
     clauses = r['linked_ensures'] + proved['requires']
     used = _names_used(clauses, stub.get('sig', '') + ' ' + proved.get('sig', '') + ' ' + stub.get('self_ty', ''), sdefs, pdefs)
     for n in sorted(_closure(used, sdefs) | _closure(used, pdefs)):
